@@ -801,3 +801,67 @@ func ruleStoragePrefixAgreement(c *Ctx) {
 		}
 	}
 }
+
+// seek-snapshot-atomic: MemCachedStore answers a range scan by merging a snapshot of its cache with a scan of the
+// lower store. "Never half of a batch" needs both to be taken in one critical section (or the lower scan to be opened
+// before the lock is released); a lower scan that starts with no lock held can see a batch the snapshot has not.
+func ruleSeekSnapshotAtomic(c *Ctx) {
+	pk := c.P.Pkg("pkg/core/storage")
+	if pk == nil {
+		c.Lost("anchor", "package storage not found")
+		return
+	}
+	wr := c.P.lockWrappers()
+	n := 0
+	for _, fd := range c.P.AllFuncDecls() {
+		if fd.Obj.Pkg() != pk.Types || fd.Decl.Body == nil || fd.Decl.Recv == nil {
+			continue
+		}
+		f := c.P.NewFuncCFG(fd)
+		// every call of performSeek in the method, inside function literals too
+		var calls []*ast.CallExpr
+		inLit := map[*ast.CallExpr]bool{}
+		var stack []ast.Node
+		ast.Inspect(fd.Decl.Body, func(x ast.Node) bool {
+			if x == nil {
+				stack = stack[:len(stack)-1]
+				return true
+			}
+			stack = append(stack, x)
+			if call, ok := x.(*ast.CallExpr); ok && f.calleeSym(call) == "pkg/core/storage.performSeek" {
+				calls = append(calls, call)
+				for _, a := range stack {
+					if _, ok := a.(*ast.FuncLit); ok {
+						inLit[call] = true
+					}
+				}
+			}
+			return true
+		})
+		if len(calls) == 0 {
+			continue
+		}
+		held := map[*ast.CallExpr]bool{}
+		c.P.AnalyzeLocks(f, wr, nil, func(_ *FuncCFG, _ *cfg.Block, _ int, nd ast.Node, st *FState) {
+			for _, call := range calls {
+				if !inLit[call] && containsNode(nd, call) {
+					for k, v := range st.Facts {
+						if v > 0 && (strings.HasPrefix(k, "R:") || strings.HasPrefix(k, "W:")) {
+							held[call] = true
+						}
+					}
+				}
+			}
+		})
+		for _, call := range calls {
+			n++
+			key := FuncKey(fd.Obj) + ".lower-scan-in-snapshot-section"
+			if held[call] {
+				c.OK(key, c.P.Pos(call.Pos()), "the lower store is scanned while the lock under which the cache snapshot was taken is still held")
+			} else {
+				c.Fail(key, c.P.Pos(call.Pos()), fmt.Sprintf("%s merges a cache snapshot taken under the lock with a scan of the lower store started after the lock was released: a batch written and flushed in between is seen by half (old values from the snapshot, new keys from the lower store)", FuncKey(fd.Obj)))
+			}
+		}
+	}
+	c.Floor("range scans merging a cache snapshot with a lower-store scan", n, 2)
+}
